@@ -61,8 +61,8 @@ PROPS = {
                 state=kinds("EF", "OE", "WD", "A", "OW"), effects=eff("transfer"), errnames=True),
     "C14": dict(profiles=["bindings"], monitors=["minDep", "slashLaw"],
                 state=kinds("B", "PR"), effects=eff("slash"), errnames=True),
-    "C15": dict(profiles=["bindings", "authority"], monitors=["indexes", "stability"],
-                state=kinds("D", "B", "OB", "OW", "PO", "PR"), effects=eff(), errnames=True),
+    "C15": dict(profiles=["bindings", "authority"], monitors=["indexes", "stability", "queryExact"],
+                state=kinds("Q", "D", "B", "OB", "OW", "PO", "PR"), effects=eff(), errnames=True),
     "C16": dict(profiles=["lifecycle", "mixed"], monitors=["requests", "counts"],
                 state=kinds("CX", "RQ", "RS", "AI", "AB"), effects=eff("ev"), errnames=False),
     "C17": dict(profiles=["queries"], monitors=["queryExact"],
